@@ -1190,6 +1190,33 @@ func (r *runner) apply(w *world, st Step) (M, bool) {
 			if pid, what := monitor.Check(monitors, w.prev, cur); pid != "" {
 				return M{"what": "property monitor failed on the implementation", "property": pid, "diff": what, "property_violation": true, "step": st}, false
 			}
+			if monitors["C05"] {
+				if prom, tid, what := monitor.FinishedAtBirth(w.prev, cur); what != "" {
+					// F20: the completion block is written unconditionally — promise update, CompleteTasks by root, CreateTasks,
+					// DeleteCallbacks.  When a second block for the same promise runs after the first (a lost race: lazy time-outs of
+					// several requests, the sweep, a concurrent completion), its promise update changes nothing but its CompleteTasks
+					// finishes the notification tasks (their root is that promise) the first block has just created
+					blocks := 0
+					for _, sqe := range toProcess {
+						if sqe.Submission.Store == nil || sqe.Submission.Store.Transaction == nil {
+							continue
+						}
+						for _, c := range sqe.Submission.Store.Transaction.Commands {
+							if c.Kind == t_aio.UpdatePromise && c.UpdatePromise != nil && c.UpdatePromise.Id == prom {
+								blocks++
+							}
+						}
+					}
+					if blocks >= 2 && strings.HasPrefix(tid, "__notify:") {
+						if !known["F20"] {
+							return M{"what": "property monitor failed on the implementation", "property": "C05", "finding": "F20", "diff": what + fmt.Sprintf(" — %d completion blocks for %q were executed in this batch: the later one's CompleteTasks finished the notification the first one created", blocks, prom), "property_violation": true, "step": st}, false
+						}
+						r.counts["known:F20"]++
+					} else {
+						return M{"what": "property monitor failed on the implementation", "property": "C05", "diff": what, "property_violation": true, "step": st}, false
+					}
+				}
+			}
 			if monitors["C09"] {
 				pv := w.prev
 				if pv == nil {
